@@ -3,8 +3,8 @@ C40 — web API byte-range downloads (web/filenode.py FileDownloader.parse_range
 
 Two kinds of obligations:
  * symbolic: the range arithmetic of parse_range_header/render on UNBOUNDED symbolic integers.  The Range header is
-   a carrier object with the split/strip interface whose numbers are symbolic ints; header *formatting* literals
-   ("bytes %s-%s/%s", b"%d") are replaced by recorders so the integers stay symbolic.
+   a carrier object with the split/strip/partition interface whose numbers are symbolic ints; every formatting site in
+   FileDownloader (any method, %, f-string, str.format, str()) keeps integers as integers (see NOTES).
  * strings: the untouched functions on real header strings / real response header text with small pinned integers
    (path-per-input), which ties the carrier and the recorders to the real text.
 Oracle (independent statement, RFC 7233 single range): the satisfiable part of the request is S = requested ∩ [0, F):
@@ -31,8 +31,10 @@ http = _http_consts
 NOTES = [
     "web.filenode.http (twisted's deprecation proxy module) replaced by a plain namespace holding the same integer status constants",
     "FileDownloader.render executed without its @render_exception decorator (eliot action / error-page rendering are outside); WebError is observed directly",
-    "symbolic obligations: the names `int` and `str` in web.filenode are shadowed (int(x) of a carrier number returns its symbolic value, str(int) is identity) and the "
-    "format literals 'bytes %s-%s/%s' and b'%d' are replaced by recorders of their arguments; the *_strings obligations run the same functions with none of this",
+    "symbolic obligations: the names `int` and `str` are shadowed at module level in web.filenode (int(<carrier number>) is its symbolic value; str(<int>) keeps the "
+    "integer) and EVERY method of FileDownloader is recompiled with %-formatting / f-strings / str.format routed through integer-preserving stand-ins, so header text "
+    "reaches the fake request as literal pieces + (symbolic) integers whichever function builds it; the *_strings obligations run the untouched code on real text and the "
+    "same comparison parses the real header text back into pieces + integers",
     "request and filenode are fakes: getHeader/setHeader/setResponseCode/method/args recorded; filenode.get_size() returns the symbolic size, read() records (first, size)",
 ]
 
@@ -66,6 +68,11 @@ class _Spec(object):
             raise hlib.HarnessError("unexpected split on a range spec")
         return list(self.parts)
 
+    def partition(self, sep):
+        if sep != '-':
+            raise hlib.HarnessError("unexpected partition on a range spec")
+        return (self.parts[0], '-', self.parts[1])
+
 
 class _RangeSet(object):
     def __init__(self, specs):
@@ -86,6 +93,11 @@ class _Header(object):
         if sep != '=' or maxsplit != 1:
             raise hlib.HarnessError("unexpected split on the header")
         return [self.units, self.rs]
+
+    def partition(self, sep):
+        if sep != '=':
+            raise hlib.HarnessError("unexpected partition on the header")
+        return (self.units, '=', self.rs)
 
     def __bool__(self):
         return True
@@ -108,37 +120,247 @@ class _int(builtins.int, metaclass=_IntMeta):
         return builtins.int(x, *a)
 
 
-def _str(x=""):
-    if isinstance(x, builtins.int) or type(x).__name__.startswith("Symbolic"):
-        return x
-    return builtins.str(x)
+def _intlike(x):
+    return isinstance(x, builtins.int) and not isinstance(x, bool)
 
 
-class _Fmt(object):
-    def __init__(self, name):
-        self.name = name
+class _Text(object):
+    """header text whose numbers are kept as (symbolic) integers: a list of literal pieces and int values.
+    Produced instead of real text wherever web.filenode formats an integer (%-formatting, f-strings, str.format, str(),
+    concatenation), whatever function does it."""
 
-    def __mod__(self, args):
-        return (self.name, args)
+    def __init__(self, parts):
+        self.parts = list(parts)
+
+    def __add__(self, other):
+        if isinstance(other, _Text):
+            return _Text(self.parts + other.parts)
+        if isinstance(other, (builtins.str, bytes)):
+            return _Text(self.parts + [other])
+        return NotImplemented
+
+    def __radd__(self, other):
+        if isinstance(other, (builtins.str, bytes)):
+            return _Text([other] + self.parts)
+        return NotImplemented
+
+    def encode(self, *a):
+        return self
+
+    def decode(self, *a):
+        return self
 
 
-_parse_sym = hlib.strip_logs(wf.FileDownloader.parse_range_header, extra_globals={"int": _int})
-_render_sym = hlib.strip_logs(wf.FileDownloader.render, drop_decorators=("render_exception", "log_call_deferred"),
-                              consts={"bytes %s-%s/%s": _Fmt("content-range"), b"%d": _Fmt("content-length")},
-                              extra_globals={"str": _str})
+_DIRECTIVE = __import__("re").compile(r"%[sdri]")
 
 
-def _unshadow():
-    for nm in ("int", "str"):
-        wf.__dict__.pop(nm, None)
+def _verif_fmt(template, args):
+    """stand-in for `template % args`"""
+    tup = args if isinstance(args, tuple) else (args,)
+    if not any(_intlike(a) or isinstance(a, _Text) for a in tup):
+        return template % args
+    text = template.decode("latin-1") if isinstance(template, bytes) else template
+    pieces = _DIRECTIVE.split(text)
+    if len(pieces) != len(tup) + 1 or "%" in "".join(pieces):
+        raise hlib.HarnessError("unsupported format template %r" % (template,))
+    out = [pieces[0]]
+    for a, lit in zip(tup, pieces[1:]):
+        out.append(a)
+        out.append(lit)
+    return _flatten(out)
 
 
-def _shadow():
-    wf.__dict__["int"] = _int
-    wf.__dict__["str"] = _str
+def _verif_fstr(parts):
+    """stand-in for an f-string: parts are literal strings and raw values"""
+    if not any(_intlike(a) or isinstance(a, _Text) for a in parts):
+        return "".join(builtins.str(a) for a in parts)
+    return _flatten(parts)
 
 
-_unshadow()
+def _verif_format(template, *args):
+    """stand-in for `template.format(*args)` with plain {} fields"""
+    if not any(_intlike(a) or isinstance(a, _Text) for a in args):
+        return template.format(*args)
+    pieces = template.split("{}")
+    if len(pieces) != len(args) + 1 or "{" in "".join(pieces):
+        raise hlib.HarnessError("unsupported format template %r" % (template,))
+    out = [pieces[0]]
+    for a, lit in zip(args, pieces[1:]):
+        out.append(a)
+        out.append(lit)
+    return _flatten(out)
+
+
+def _flatten(parts):
+    out = []
+    for a in parts:
+        if isinstance(a, _Text):
+            out.extend(a.parts)
+        else:
+            out.append(a)
+    return _Text(out)
+
+
+class _StrMeta(type):
+    def __instancecheck__(cls, obj):
+        return isinstance(obj, builtins.str)
+
+    def __subclasscheck__(cls, sub):
+        return issubclass(sub, builtins.str)
+
+
+class _str(builtins.str, metaclass=_StrMeta):
+    """shadow of the name `str` inside web.filenode: str(<int>) keeps the integer (as a _Text piece)"""
+
+    def __new__(cls, x="", *a):
+        if _intlike(x) and not a:
+            return _Text([x])
+        if isinstance(x, _Text):
+            return x
+        return builtins.str(x, *a)
+
+
+def _tokens(v):
+    """normal form of a header value: list of literal strings and integers (adjacent literals merged, empty ones dropped).
+    Real text is parsed back: every maximal run of digits is an integer."""
+    if isinstance(v, _Text):
+        raw = v.parts
+    elif isinstance(v, (builtins.str, bytes)):
+        text = v.decode("latin-1") if isinstance(v, bytes) else v
+        raw = []
+        for piece in __import__("re").split(r"(\d+)", text):
+            raw.append(builtins.int(piece) if piece.isdigit() else piece)
+    else:
+        raise hlib.HarnessError("header value of unexpected type %r" % (type(v),))
+    out = []
+    for a in raw:
+        if isinstance(a, bytes):
+            a = a.decode("latin-1")
+        if isinstance(a, builtins.str):
+            if a == "":
+                continue
+            if out and isinstance(out[-1], builtins.str):
+                out[-1] = out[-1] + a
+                continue
+        out.append(a)
+    return out
+
+
+def _same_tokens(got, want):
+    if len(got) != len(want):
+        return False
+    for g, w in zip(got, want):
+        if isinstance(g, builtins.str) != isinstance(w, builtins.str):
+            return False
+        if g != w:
+            return False
+    return True
+
+
+import ast as _ast
+import inspect as _inspect
+import textwrap as _textwrap
+import types as _types
+
+
+class _FormatCut(_ast.NodeTransformer):
+    """every place that turns values into text is routed through the stand-ins above (shape-generic: it does not matter
+    which function formats, or whether it uses %, an f-string or str.format)"""
+
+    def visit_BinOp(self, node):
+        self.generic_visit(node)
+        if isinstance(node.op, _ast.Mod) and isinstance(node.left, _ast.Constant) and isinstance(node.left.value, (builtins.str, bytes)):
+            return _ast.copy_location(_ast.Call(_ast.Name("__verif_fmt", _ast.Load()), [node.left, node.right], []), node)
+        return node
+
+    def visit_JoinedStr(self, node):
+        parts = []
+        for v in node.values:
+            if isinstance(v, _ast.Constant):
+                parts.append(v)
+            elif isinstance(v, _ast.FormattedValue) and v.format_spec is None and v.conversion == -1:
+                parts.append(self.visit(v.value))
+            else:
+                parts.append(_ast.JoinedStr([v]))
+        return _ast.copy_location(_ast.Call(_ast.Name("__verif_fstr", _ast.Load()), [_ast.List(parts, _ast.Load())], []), node)
+
+    def visit_Call(self, node):
+        self.generic_visit(node)
+        f = node.func
+        if (isinstance(f, _ast.Attribute) and f.attr == "format" and isinstance(f.value, _ast.Constant)
+                and isinstance(f.value.value, builtins.str) and not node.keywords):
+            return _ast.copy_location(_ast.Call(_ast.Name("__verif_format", _ast.Load()), [f.value] + node.args, []), node)
+        return node
+
+
+def _recompile_class(cls):
+    """{name: attribute} with every plain/static/class method of cls recompiled from its current source through
+    _FormatCut (decorators that only wrap rendering, i.e. render_exception, dropped)."""
+    out = {}
+    for name, attr in list(vars(cls).items()):
+        if not isinstance(attr, (_types.FunctionType, staticmethod, classmethod)):
+            continue
+        fn = attr.__func__ if isinstance(attr, (staticmethod, classmethod)) else attr
+        while hasattr(fn, "__wrapped__"):
+            fn = fn.__wrapped__
+        if fn.__code__.co_freevars:
+            continue        # uses super() or a closure: left as it is (e.g. __init__)
+        try:
+            src = _textwrap.dedent(_inspect.getsource(fn))
+        except (OSError, TypeError):
+            continue
+        tree = _ast.parse(src)
+        fdef = tree.body[0]
+        kept = []
+        for d in fdef.decorator_list:
+            nm = d.id if isinstance(d, _ast.Name) else getattr(d, "attr", None)
+            if nm in ("render_exception", "staticmethod", "classmethod"):
+                continue
+            kept.append(d)
+        fdef.decorator_list = kept
+        tree = _FormatCut().visit(tree)
+        _ast.fix_missing_locations(tree)
+        ns = {}
+        exec(compile(tree, _inspect.getsourcefile(fn) or "?", "exec"), fn.__globals__, ns)
+        new = ns[fdef.name]
+        new.__qualname__ = fn.__qualname__
+        hlib.encoded(fn)
+        if isinstance(attr, staticmethod):
+            new = staticmethod(new)
+        elif isinstance(attr, classmethod):
+            new = classmethod(new)
+        out[name] = new
+    hlib.CUTS.append({"file": _inspect.getsourcefile(cls) or "?", "line": 0,
+                      "src": "every method of %s: %%-formatting / f-strings / str.format routed through integer-preserving stand-ins; "
+                             "@render_exception dropped" % cls.__name__})
+    return out
+
+
+_ORIG = dict((k, v) for (k, v) in vars(wf.FileDownloader).items()
+             if isinstance(v, (_types.FunctionType, staticmethod, classmethod)))
+_SYM = _recompile_class(wf.FileDownloader)
+_SHADOWS = {"int": _int, "str": _str, "__verif_fmt": _verif_fmt, "__verif_fstr": _verif_fstr, "__verif_format": _verif_format}
+
+
+class _Symbolic(object):
+    """inside this context web.filenode runs with the integer-preserving stand-ins: shadows of int/str at module level (so
+    they apply to every function and helper of the module) and the recompiled FileDownloader methods"""
+
+    def __enter__(self):
+        for k, v in _SHADOWS.items():
+            wf.__dict__[k] = v
+        for k, v in _SYM.items():
+            setattr(wf.FileDownloader, k, v)
+        return self
+
+    def __exit__(self, *a):
+        for k in _SHADOWS:
+            wf.__dict__.pop(k, None)
+        for k, v in _ORIG.items():
+            setattr(wf.FileDownloader, k, v)
+        return False
+
+
 _render_raw = wf.FileDownloader.render
 while hasattr(_render_raw, "__wrapped__"):
     _render_raw = _render_raw.__wrapped__
@@ -206,7 +428,7 @@ def _expect(F, form, a, b):
     return ("206", F - a if F - a > 0 else 0, F - 1)
 
 
-def _check_response(exp, F, req, fd, result, raised, head, symbolic):
+def _check_response(exp, F, req, fd, result, raised, head):
     if raised is not None:
         if raised.code != http.REQUESTED_RANGE_NOT_SATISFIABLE:
             return "unexpected web error %r" % (raised.code,)
@@ -219,16 +441,10 @@ def _check_response(exp, F, req, fd, result, raised, head, symbolic):
         return "range starting at/after EOF did not give 416"
     if req.headers.get("accept-ranges") != "bytes":
         return "accept-ranges header missing"
-    cl = req.headers.get("content-length")
-    cr = req.headers.get("content-range")
-    if symbolic:
-        if not isinstance(cl, tuple) or cl[0] != "content-length":
-            return "harness: content-length recorder"
-        cl = cl[1]
-        if cr is not None:
-            if not isinstance(cr, tuple) or cr[0] != "content-range" or len(cr[1]) != 3:
-                return "harness: content-range recorder"
-            cr = tuple(cr[1])
+    cl = _tokens(req.headers.get("content-length")) if req.headers.get("content-length") is not None else None
+    cr = _tokens(req.headers.get("content-range")) if req.headers.get("content-range") is not None else None
+    if cl is None:
+        return "no Content-Length header"
     if head:
         if result != b"" or fd.filenode.reads:
             return "HEAD must not read or return a body"
@@ -238,21 +454,20 @@ def _check_response(exp, F, req, fd, result, raised, head, symbolic):
     if exp[0] in ("full", "full-or-416"):
         if req.code is not None or cr is not None:
             return "ignored/absent range header must give a plain 200 without Content-Range"
-        if (cl != F) if symbolic else (cl != b"%d" % F):
+        if not _same_tokens(cl, [F]):
             return "Content-Length of a full response is not the file size"
         if not head and fd.filenode.reads[0][1:] != (0, None):
             return "full response does not read the whole file"
         return True
     (_, lo, hi) = exp
+    if not (0 <= lo and lo <= hi and hi < F):
+        raise hlib.HarnessError("model produced an invalid range")
     if req.code != http.PARTIAL_CONTENT:
         return "satisfiable range did not give 206"
-    want_cr = (lo, hi, F) if symbolic else "bytes %d-%d/%d" % (lo, hi, F)
-    if cr != want_cr:
+    if cr is None or not _same_tokens(cr, ["bytes ", lo, "-", hi, "/", F]):
         return "Content-Range is not 'bytes lo-hi/filesize' for the clipped range"
-    if (cl != hi - lo + 1) if symbolic else (cl != b"%d" % (hi - lo + 1)):
+    if not _same_tokens(cl, [hi - lo + 1]):
         return "Content-Length does not match the Content-Range"
-    if not (0 <= lo and lo <= hi and hi < F):
-        return "harness: model produced an invalid range"
     if not head and fd.filenode.reads[0][1:] != (lo, hi - lo + 1):
         return "body is not exactly the bytes lo..hi"
     return True
@@ -281,21 +496,17 @@ def h_range_symbolic(F: int, form: int, a: int, b: int, head: bool, second: int,
         specs.append(spec(0, a2, b2))
     fd = _downloader(F)
     req = _Req(_Header(specs), method=b"HEAD" if head else b"GET")
-    fd.parse_range_header = lambda h: _parse_sym(fd, h)
     raised = None
     result = None
-    _shadow()
-    try:
+    with _Symbolic():
         try:
-            result = _render_sym(fd, req)
+            result = fd.render(req)
         except WebError as e:
             raised = e
-    finally:
-        _unshadow()
     exp = _expect(F, form, a, b)
     if second == 2 or (form == 0 and b < a):
         exp = ("full",)          # one syntactically invalid spec makes the whole header unparsable => ignored
-    return _check_response(exp, F, req, fd, result, raised, head, True)
+    return _check_response(exp, F, req, fd, result, raised, head)
 
 
 def h_range_unparsable(F: int, kind: int, head: bool) -> bool:
@@ -309,16 +520,12 @@ def h_range_unparsable(F: int, kind: int, head: bool) -> bool:
     req = _Req(hdr, method=b"HEAD" if head else b"GET")
     raised = None
     result = None
-    fd.parse_range_header = lambda h: _parse_sym(fd, h)
-    _shadow()
-    try:
+    with _Symbolic():
         try:
-            result = _render_sym(fd, req)
+            result = fd.render(req)
         except WebError as e:
             raised = e
-    finally:
-        _unshadow()
-    return _check_response(("full",), F, req, fd, result, raised, head, True)
+    return _check_response(("full",), F, req, fd, result, raised, head)
 
 
 def _pin(x, lo, hi):
@@ -354,7 +561,7 @@ def h_range_strings(F: int, form: int, a: int, b: int, head: bool, spaces: bool)
     except WebError as e:
         raised = e
     exp = _expect(F, form, a, b)
-    return _check_response(exp, F, req, fd, result, raised, head, False)
+    return _check_response(exp, F, req, fd, result, raised, head)
 
 
 def h_save_and_type(save: int, F: int) -> bool:
@@ -365,12 +572,8 @@ def h_save_and_type(save: int, F: int) -> bool:
     # headers that do not depend on the range: content-type from the file name, content-disposition only with save=true
     fd = _downloader(F)
     req = _Req(None, save=[None, b"true", b"false"][save])
-    fd.parse_range_header = lambda h: _parse_sym(fd, h)
-    _shadow()
-    try:
-        _render_sym(fd, req)
-    finally:
-        _unshadow()
+    with _Symbolic():
+        fd.render(req)
     if req.headers.get("content-type") != "text/plain":
         return "content-type"
     cd = req.headers.get("content-disposition")
